@@ -270,7 +270,47 @@ def run_longrefs(c):
     return {"bad": [[int(k), float(got[k]), float(want[k])] for k in bad[:3]], "n_bad": int(len(bad)), "intervals": int(m - 1)}
 
 
+XDTYPES = [("uint16", 2 ** 16), ("uint32", 2 ** 32), ("uint64", 2 ** 64), ("int32", 2 ** 31), ("int16", 2 ** 15), ("uint8", 2 ** 8)]
+
+
+def integer_abscissae(c, rng):
+    """the same case on integer abscissae held in a narrow / unsigned NumPy dtype (tick counters, epoch seconds in
+    uint32, sample numbers in uint16): the abscissae of the series, of the reference and the designated fixed points go
+    through one affine map that makes them non-negative whole numbers, far inside the dtype's range (four times the
+    largest abscissa still fits: the library itself adds the two ends of an interval before halving).  The numbers the
+    model sees are the mapped ones; only the container differs.  Differences of unsigned values that are negative in
+    exact arithmetic wrap around silently in NumPy, so an expression that is equal to the documented one over the reals
+    need not be equal on such input."""
+    from math import lcm
+    keys = [k for k in ("x", "xref", "fpx") if c.get(k)]
+    allv = [Fraction(v) for k in keys for v in c[k]]
+    if not allv:
+        return c
+    m = 1
+    for v in allv:
+        m = lcm(m, v.denominator)
+    lo = min(allv)
+    off = rng.choice([0, 0, 1, 3, 17])
+    top = (max(allv) - lo) * m + off
+    fits = [(n, cap) for n, cap in XDTYPES if 4 * top < cap]
+    if m > 2 ** 12 or not fits:
+        return c
+    c = dict(c)
+    for k in keys:
+        c[k] = [str((Fraction(v) - lo) * m + off) for v in c[k]]
+    c["xdtype"] = rng.choice(fits)[0]
+    return c
+
+
 def cases(rng, tier):
+    for c in _cases(rng, tier):
+        if (c.get("kind") in ("valid", "degenerate", "interval") and not c.get("long") and "xdtype" not in c
+                and rng.random() < 0.12):
+            c = integer_abscissae(c, rng)
+        yield c
+
+
+def _cases(rng, tier):
     for i in range({"quick": 2, "thorough": 6}.get(tier, 1)):
         c = gen_longrefs(rng)
         c["outlier"] = i % 2 == 0
@@ -365,7 +405,7 @@ def run_impl(c):
         x = [Fraction(v) for v in c["x"]]
         y = [Fraction(v) for v in c["y"]]
         try:
-            r = _interval_integral_matching_stretch(S.arr(floats(x)), S.arr(floats(y)),
+            r = _interval_integral_matching_stretch(S.arr(floats(x), dtype=c.get("xdtype")), S.arr(floats(y)),
                                                     integral_values=[float(Fraction(v)) for v in c["Is"]],
                                                     fixed_points_indices_in_x=np.array(c["F"]),
                                                     integral_method=S.text(c["target"], c.get("argrep", "plain")),
@@ -385,7 +425,7 @@ def run_impl(c):
         with warnings.catch_warnings():
             warnings.simplefilter("ignore")
             r = integral_matching_reference_stretch(
-                S.arr(floats(x)), S.arr(floats(y)), S.arr(floats(xref)), S.arr(floats(yref)),
+                S.arr(floats(x), dtype=c.get("xdtype")), S.arr(floats(y)), S.arr(floats(xref), dtype=c.get("xdtype")), S.arr(floats(yref)),
                 fixed_points_finding_strategy=S.text(c["strategy"], rep), target_function_integral_method=S.text(c["target"], rep),
                 reference_function_integral_method=S.text(c["ref"], rep), alpha=c["alpha"], **kw)
         return {"ok": [float(v) for v in r], "type": type(r).__name__}
